@@ -73,6 +73,27 @@ def role(n):
     return None, None
 
 
+def role_via(prog, n, depth=0):
+    """role(n), or - for a call to a private amc helper that is not a role function itself - the lifetime role its body performs
+    (one level of helper extraction: `destroyFrom(n)` whose body is a destroy_n is a destroy)."""
+    kd, det = role(n)
+    if kd is not None or prog is None or not isinstance(n, dict) or n.get('k') != 'call' or not n.get('amc') or depth > 1:
+        return kd, det
+    g = prog.fns.get(n.get('fn'))
+    if g is None or g.get('body') is None:
+        return kd, det
+    kinds = {}
+    for c in A.calls(g['body']):
+        k2, d2 = role_via(prog, c, depth + 1)
+        if k2 in ('destroy', 'construct', 'erase', 'assign', 'hole_open', 'hole_consume', 'hole_close', 'commit', 'check'):
+            kinds.setdefault(k2, d2)
+    life = {k: v for k, v in kinds.items() if k in ('destroy', 'construct', 'erase', 'hole_open', 'hole_consume', 'hole_close')}
+    if len(life) == 1 and 'commit' not in kinds:
+        k2 = list(life)[0]
+        return k2, life[k2]
+    return kd, det
+
+
 def dest_arg(n):
     sn = A.cshort(n)
     i = CONSTRUCT_DEST.get(sn)
